@@ -13,6 +13,7 @@ import (
 	"go/ast"
 	"go/printer"
 	"go/token"
+	"sort"
 	"strconv"
 )
 
@@ -429,6 +430,86 @@ func (g *gen) handOff() {
 	g.p("Definition ho_receipts_handler_delete_calls : nat := %d.\n", hoCountCalls(hm, "delete"))
 	g.p("Definition ho_receipts_handler_plain_sends : nat := %d.\n", hoSendsOutsideSelect(hm))
 	g.hoList("ho_receipts_yields", append(hoYields(hm), hoYields(sme)...))
+
+	// receipts.Handle: the message types for which the handler is registered on
+	// the `received` payload, and the MessageType constants of the stanza package
+	if sm := g.parse("stanza/message.go"); sm != nil {
+		consts := map[string]string{}
+		var constVals []string
+		ast.Inspect(sm, func(x ast.Node) bool {
+			vs, is := x.(*ast.ValueSpec)
+			if !is || len(vs.Names) != 1 || len(vs.Values) != 1 {
+				return true
+			}
+			if t, is := vs.Type.(*ast.Ident); !is || t.Name != "MessageType" {
+				return true
+			}
+			if bl, is := vs.Values[0].(*ast.BasicLit); is && bl.Kind == token.STRING {
+				if v, err := strconv.Unquote(bl.Value); err == nil {
+					consts[vs.Names[0].Name] = v
+					constVals = append(constVals, v)
+				}
+			}
+			return true
+		})
+		var regs []string
+		seen := map[string]bool{}
+		if hf := hoFunc(rc, "", "Handle"); hf != nil {
+			// every call mux.Message(T, received, ...): T a stanza.X selector, or a
+			// loop variable ranging over a composite literal of such selectors
+			rangeVals := map[string][]string{}
+			ast.Inspect(hf, func(x ast.Node) bool {
+				rs, is := x.(*ast.RangeStmt)
+				if !is {
+					return true
+				}
+				v, is := rs.Value.(*ast.Ident)
+				cl, is2 := rs.X.(*ast.CompositeLit)
+				if !is || !is2 {
+					return true
+				}
+				for _, el := range cl.Elts {
+					if sel, is := el.(*ast.SelectorExpr); is {
+						rangeVals[v.Name] = append(rangeVals[v.Name], sel.Sel.Name)
+					}
+				}
+				return true
+			})
+			ast.Inspect(hf, func(x ast.Node) bool {
+				call, is := x.(*ast.CallExpr)
+				if !is || len(call.Args) < 2 {
+					return true
+				}
+				sel, is := call.Fun.(*ast.SelectorExpr)
+				if !is || sel.Sel.Name != "Message" {
+					return true
+				}
+				if id, is := call.Args[1].(*ast.Ident); !is || id.Name != "received" {
+					return true
+				}
+				var names []string
+				switch t := call.Args[0].(type) {
+				case *ast.SelectorExpr:
+					names = []string{t.Sel.Name}
+				case *ast.Ident:
+					names = rangeVals[t.Name]
+				}
+				for _, n := range names {
+					if v, ok := consts[n]; ok && !seen[v] {
+						seen[v] = true
+						regs = append(regs, v)
+					}
+				}
+				return true
+			})
+		} else {
+			g.errs = append(g.errs, "receipts/receipts.go: Handle not found")
+		}
+		sort.Strings(constVals)
+		sort.Strings(regs)
+		g.hoList("ho_stanza_message_types", constVals)
+		g.hoList("ho_receipts_received_types", regs)
+	}
 
 	// ---- muc ----
 	mr := g.parse("muc/room.go")
